@@ -118,6 +118,11 @@ class Gen:
                     start, stop, step = self.int_ref(a), self.int_ref(b), None
                     if form < 0.5:
                         step = self.int_ref(st)
+                        if isinstance(step, int):
+                            # a let-valued step whenever a let of that value exists
+                            c_ = [k for k, v in sorted(self.lets.items()) if isinstance(v, int) and v == st]
+                            if c_ and t.chance(0.5):
+                                step = t.choice(c_)
                     elif form < 0.5:
                         start, a = None, 0
                     elif form < 0.65:
